@@ -20,6 +20,7 @@ REQUIRED = [
     "DaeVerif.C12.Props.slots_hold_own_set",
     "DaeVerif.C12.Props.slot_same_set_ip",
     "DaeVerif.C12.Props.mac_slot_exact",
+    "DaeVerif.C12.Props.dns_ip_rules_by_containment",
 ]
 
 
@@ -60,6 +61,33 @@ def run(ctx):
         ctx.report(f"implementation differs from proved model at line {ln}: impl `{im}` model `{mo}`",
                    {"stream": "c12", "line": ln, "op": op, "impl": im, "model": mo,
                     "replay": "VERIF_SEED=%d ./check C12 %s" % (ctx.seed, ctx.tier)})
+    # --- DNS response routing `ip()` sets (component/dns/response_routing.go): real parser + production
+    # optimizers + response matcher builder + Match against the proved first-match / containment model
+    n_dns = 0
+    binp2 = ctx.go_test_build("component/dns", ["component/dns/c12_test.go"], "c12dns", tags="")
+    if not binp2:
+        return 2
+    rc, out = ctx.run_harness(binp2, "TestVerifC12Dns")
+    dops, dimpl, dmodel = (os.path.join(ctx.out, "c12dns." + e) for e in ("ops", "impl", "model"))
+    if rc != 0 or not os.path.exists(dops):
+        ctx.say("HARNESS-FAILED", out[-3000:])
+        return 2
+    if not ctx.driver("c12drv", dops, dmodel):
+        ctx.proof_failures.append("model driver c12drv failed to run (dns stream)")
+    dmism = ctx.diff_streams(dops, dimpl, dmodel, "c12dns")
+    for ln, op, im, mo in dmism[:10]:
+        ctx.report(f"DNS response ip() rule decided differently from CIDR containment at line {ln}: impl `{im}` model `{mo}`",
+                   {"stream": "c12dns", "line": ln, "op": op[:4000], "impl": im, "model": mo,
+                    "replay": "VERIF_SEED=%d ./check C12 %s" % (ctx.seed, ctx.tier)})
+    for op, mo in zip(read_lines(dops), read_lines(dmodel)):
+        if mo in ("bad-op", "SPEC-DIFFERS"):
+            ctx.report("model driver: bad op / spec differs on the dns stream (harness-model protocol bug)", {"op": op[:2000], "model": mo})
+            break
+    dns_lines = [o for o in read_lines(dops) if o.startswith("dnsip ") and not o.startswith("dnsip - ")]
+    n_dns = len(dns_lines)
+    distinct |= set(dns_lines)
+    dstats = json.load(open(os.path.join(ctx.out, "c12dns.stats.json")))
+    ctx.cov["dns_input_distribution"] = dstats["counters"]
     stats = json.load(open(os.path.join(ctx.out, "c12.stats.json")))
     ctx.samples = stats["samples"] + read_lines(ops)[:3]
     ctx.cov["input_distribution"] = stats["counters"]
@@ -86,8 +114,20 @@ def run(ctx):
         # (with violations present the floors are moot: e.g. a broken /0 turns every probe into a hit)
         ctx.say("GENERATOR-FLOOR-FAILED " + "; ".join(floors[:5]))
         return 2
-    ctx.assumptions = ["probe addresses and prefix sets are generated (seeded); sizes 1..~220 prefixes per set"]
-    return ctx.finish(rule="ops = bin/key/match/canon/share lines; a `match` op is one (prefix set, probe address) pair, "
+    dc = dstats["counters"]
+    dfl = []
+    for key, least in [("dns.prog", 50), ("dns.rule.negated", 20), ("dns.answer.reject", 200), ("dns.answer.accept", 200),
+                       ("dns.same_set_again", 5), ("dns.near_twin_set", 5), ("dns.wrap_probe", 1)]:
+        if dc.get(key, 0) < least:
+            dfl.append(f"{key}={dc.get(key, 0)} < {least}")
+    if dfl and not ctx.violations and not ctx.proof_failures:
+        ctx.say("GENERATOR-FLOOR-FAILED (dns stream) " + "; ".join(dfl))
+        return 2
+    ctx.cov["dns_ip_rule_evaluations"] = n_dns
+    ctx.assumptions = ["probe addresses and prefix sets are generated (seeded); sizes 1..~220 prefixes per set",
+                       "dns stream: single-condition response rules [!]ip(..) -> accept|reject, 1..3 answer addresses, fallback accept; "
+                       "combinations with qname/qtype/upstream conditions are C07's subject"]
+    return ctx.finish(rule="ops = bin/key/match/canon/share lines and dnsip lines (one (response ip() rule list, answer addresses) pair each); a `match` op is one (prefix set, probe address) pair, "
                            "probes are the first/last address inside and the neighbours outside every prefix plus random ones; "
                            "distinct_nontrivial counts distinct match ops",
-                      evaluations=len(read_lines(ops)), distinct=len(distinct))
+                      evaluations=len(read_lines(ops)) + n_dns, distinct=len(distinct))
